@@ -22,12 +22,8 @@ PRELUDE = "Open Scope N_scope."
 
 TYPES = (1, 2)
 TAGS = (1, 2, 3)
-FALSY = 0              # Model/Runtime.v falsy_tag: a callable whose bool() is False
+FALSY = 0              # a callable whose bool() is False (Model/Runtime.v falsy_tag); must serve like any other
 NVARS = 4
-FINDING_FALSY = "C14-F1"
-FALSY_WHAT = ("a runtime holding a callable handler whose truth value is False (bool(h) is False) does not serve "
-              "with it: Runtime.run uses `self.handlers.get(T) or _DEFAULT_HANDLERS[T]`, so the default (or "
-              "TypeError) answers instead")
 
 
 # ----------------------------------------------------------------------------- implementation side
@@ -444,8 +440,9 @@ FALSY_WITNESS = {"existing": False, "pre": [],
                  "prog": [["default", 1, 2, "decorator"], ["new", 0, [[1, FALSY]], "map"],
                           ["enter", 0], ["run", 1], ["exit"]]}
 
-# regression corpus: the witnesses of the two repaired defects (D14/D15, D16) and friends
+# regression corpus: the witnesses of the repaired defects (D14/D15, D16, the falsy-handler `or`) and friends
 CORPUS = [
+    FALSY_WITNESS,
     {"existing": True, "pre": [[1, 2]], "prog": [["handle", 0, [[1, 1]], "pair"], ["enter", 0], ["enter", 0], ["run", 1],
                                                   ["exit"], ["run", 1], ["exit"], ["run", 1], ["cur", 1]]},
     {"existing": False, "pre": [[1, 2]], "prog": [["new", 0, [[1, 1]], "map"], ["enter", 0], ["run", 1], ["exit"],
@@ -599,18 +596,14 @@ def run(ctx):
     for _ in range(n_rand):
         streams.append(("random", gen_random(rng, maxlen)))
     for _ in range(n_falsy):
-        streams.append(("falsy-zone", gen_random(rng, min(maxlen, 25), tags=TAGS + (FALSY,))))
-    streams.append(("falsy-witness", FALSY_WITNESS))
+        streams.append(("falsy-handlers", gen_random(rng, min(maxlen, 25), tags=TAGS + (FALSY,))))
     scenarios = [sc for _, sc in streams]
 
     obs = run_batch(scenarios)
     model = eval_model(ctx, streams)
 
-    known_ids = {e["id"] for e in lib.load_known_findings(PID) if e.get("status") == "known"}
     mism, viol = [], []
     n_mism = n_viol = 0
-    falsy_dev = 0
-    falsy_witness_fails = False
     dist = {"streams": {}, "ops": {}, "answers": {"served": 0, "TypeError": 0}, "max_depth": {},
             "features": {}, "start": {"fresh": 0, "existing": 0}}
     distinct = set()
@@ -634,7 +627,6 @@ def run(ctx):
                 dist["features"][k] = dist["features"].get(k, 0) + 1
         if nontrivial(f):
             distinct.add(lib.stable_hash(sc))
-        zone = stream.startswith("falsy")
         # 1. implementation vs code model
         if impl != conc:
             n_mism += 1
@@ -649,14 +641,6 @@ def run(ctx):
                                  scenario=sc, impl=orc, model=spec, first_difference=first_diff(orc, spec, sc["prog"])))
         # 3. the property itself on the implementation
         if impl != orc:
-            if zone and impl == conc and orc == spec:
-                # exactly the modelled departure (falsy handler skipped): the known-finding zone
-                falsy_dev += 1
-                if stream == "falsy-witness":
-                    falsy_witness_fails = True
-                if FINDING_FALSY in known_ids and len(viol) < 50:
-                    viol.append(dict(desc=FALSY_WHAT, scenario=sc, impl=impl, oracle=orc, finding=FINDING_FALSY))
-                continue
             n_viol += 1
             if len(viol) < 50:
                 viol.append(dict(desc="implementation's answers differ from the stack oracle (property text)",
@@ -672,16 +656,11 @@ def run(ctx):
         v["impl"], v["oracle"] = run_impl(small), run_oracle(small)
         v["first_difference"] = first_diff(v["impl"], v["oracle"], small["prog"])
         v["history"] = [" ".join(map(str, op)) for op in small["prog"]]
-    viol = new[:5] + [v for v in viol if v["finding"] is not None][:3]
+    viol = new[:5]
 
     idx = [i for i, (s, _) in enumerate(streams) if s in ("random", "exhaustive")]
     pick = [idx[0], idx[len(idx) // 3], idx[2 * len(idx) // 3], idx[-1]] if idx else []
     samples = [dict(stream=streams[i][0], scenario=scenarios[i], implementation=obs[i][0]) for i in pick]
-    notes = []
-    if FINDING_FALSY not in known_ids:
-        notes.append(f"{FINDING_FALSY} ({FALSY_WHAT}) is not listed in known_findings.json: its {falsy_dev} occurrences in the "
-                     "falsy-zone stream are reported here and in known_findings_replayed, not as violations "
-                     "(the code model reproduces them exactly; theorem C14_falsy_handler_refuted)")
     return {
         "evaluations": len(scenarios),
         "distinct_nontrivial": len(distinct),
@@ -694,18 +673,16 @@ def run(ctx):
         "traces_validated_against_impl": len(scenarios),
         "correspondence_mismatches": mism,
         "violations": viol,
-        "known": [dict(id=FINDING_FALSY, still_fails=falsy_witness_fails, what=FALSY_WHAT,
-                       witness=FALSY_WITNESS, occurrences_in_falsy_zone=falsy_dev)],
-        "notes": notes,
+        "known": [],
         "distribution": dict(dist, operations=ops_total, mismatches=n_mism, oracle_failures=n_viol,
-                             falsy_zone_departures=falsy_dev, exhaustive_length=exh_len,
+                             exhaustive_length=exh_len,
                              exhaustive_alphabet=[" ".join(map(str, o)) for o in EXH_ALPHABET],
                              random_max_length=maxlen),
         "exhaustive": False,
         "assumptions": [
             "one thread (interleavings are C15); each history runs in a new threading.Thread",
-            "handlers are objects whose truth value is True (functions, lambdas, methods): side condition op_truthy/objs_truthy "
-            "of C14_refines_stack; the falsy-zone stream checks that outside it the code model still matches the implementation",
+            "handlers are arbitrary callables; the falsy-handler stream uses callables whose bool() is False and must satisfy the "
+            "oracle and the correspondence like every other stream",
             "a runtime 'holds' the defaults of the moment it was created (Runtime.__init__ snapshots them): re-registering a default "
             "for a type is not seen by runtimes created before (model, specification and oracle agree on this reading)",
             "the exhaustive stream is complete for its 14-symbol alphabet and length bound only; it is not the whole space",
